@@ -64,6 +64,7 @@ fn view_oracle(c: &View) -> Verdict {
         ($name:expr, $call:expr, $want:expr) => {{
             let d = lib!($call);
             ensure!(count(d) == $want, "{} of {} {} = {}, want {}", $name, SCALE_NAMES[c.e.s], c.e.c, count(d), $want);
+            ensure!(canonical(d), "{} of {} {} is not canonical: {:?}", $name, SCALE_NAMES[c.e.s], c.e.c, d.to_parts());
         }};
     }
     dur_eq!("to_tai_duration", e.to_tai_duration(), tai);
